@@ -122,7 +122,7 @@ ENGINES.append(dict(name="E-GRAM", path="harness/gram.cpp", serves_properties=["
 CHECKS["C05"] = dict(
     level="exploration", engine="E-REWRITE",
     technique="bounded exhaustive input enumeration on the implementation: every prefix length in boundary windows of exporter-produced files, flat streams at every length around window multiples, unreadable streams",
-    level_text="For 9 exporter-produced files (0.6 KiB to 3 windows; three of exactly k*65535 bytes; three whose first block ends one before / on / one after a window boundary) every prefix length (small files: all; large: +-48 around every multiple of 65535, the header end, block ends and file end) is read by the real CdnsReader from a string stream and a file stream; the reader must return exactly the blocks wholly contained in the prefix, identical to those of the full file, then throw CdnsDecoderEnd. Flat streams of n one-byte items (n within +-48 of 0, 65535, 131070, 196605) must yield exactly n values for each of 7 read operations and then CdnsDecoderEnd; never-opened / directory / missing-file streams must never yield a value.",
+    level_text="For 9 exporter-produced files (0.6 KiB to 3 windows; three of exactly k*65535 bytes; three whose first block ends one before / on / one after a window boundary) every prefix length (small files: all; large: +-48 around every multiple of 65535, the header end, block ends and file end) is read by the real CdnsReader from a string stream and a file stream; the reader must return exactly the blocks wholly contained in the prefix, identical to those of the full file, then throw CdnsDecoderEnd. Flat streams of n one-byte items (n within +-48 of 0, 65535, 131070, 196605) must yield exactly n values for each of 7 read operations and then CdnsDecoderEnd; never-opened / directory / missing-file streams must never yield a value. For cuts next to a multiple of 65535, a block end or the end of the file, the prefix is also read in turns with a reader over the full file while a third reader over another valid file is alive on the same thread (lockstep): each of the three must return what it returns alone.",
     level_note="Trusted: block end offsets from ref/ parse. The decoder's only position-dependent state is (window exhausted?) which changes at multiples of 65535 and at end of data; all relative positions within +-48 are covered. A coarse sweep elsewhere is not part of the claim.",
     stages=[dict(harness="rewrite", variant="asan", args=["--mode", "prefix"])],
     rule="enumerated (file, prefix length, stream kind) triples + (length, operation) pairs + (unreadable stream kind, operation) pairs; non-trivial = prefix strictly inside the file, or any flat/unreadable case; all distinct",
@@ -182,7 +182,7 @@ CHECKS["C09"] = dict(
 CHECKS["C17"] = dict(
     level="model_checking", engine="E-VAL",
     technique="exhaustive grid enumeration of timestamp arithmetic against 128-bit reference arithmetic, plus explicit-state enumeration of record arrival orders through the real exporter",
-    level_text="(a) all pairs over a small exhaustive grid (rates 1,2,3,7,10,1000) and over the boundary product (rates 1,1e3,1e6,1e9; seconds 0,1,2^31-1,2^31,2^32-1,2^32,max-1,max; ticks 0,1,rate-1): offset exact, add-back exact and normalised, < and <= order by instant; every offset of {INT64_MIN, INT64_MIN+1, -2^32, -rate-1, -rate, -1, 0, 1, rate-1, rate, 2^32, INT64_MAX} on every grid point: refused exactly when the result would be negative or the rate is 0, refusal leaves the timestamp unchanged; UBSan armed. (b) every arrival order of up to 4 timed/untimed QR/MM/AEC records x time-offset hint on/off x MM hint on/off through the real exporter: every record time recovered exactly by both readers (hence earliest <= every stored time).",
+    level_text="(a) all pairs over a small exhaustive grid (rates 1,2,3,7,10,1000) and over the boundary product (rates 1,1e3,1e6,1e9; seconds 0,1,2^31-1,2^31,2^32-1,2^32,max-1,max; ticks 0,1,rate-1): offset exact, add-back exact and normalised, < and <= order by instant; every offset of {INT64_MIN, INT64_MIN+1, -2^32, -rate-1, -rate, -1, 0, 1, rate-1, rate, 2^32, INT64_MAX} on every grid point: refused exactly when the result would be negative or the rate is 0, refusal leaves the timestamp unchanged; UBSan armed. (b) every arrival order of up to 4 timed/untimed QR/MM/AEC records x time-offset hint on/off x MM hint on/off through the real exporter: every record time recovered exactly by both readers (hence earliest <= every stored time). (c) at rates 1,1e3,1e6,1e9 every ordered pair over the normalised boundary instants of (a) x {query/response, malformed message} as raw items of one block through exporter -> file -> CdnsReader and the independent reader: times recovered as the same (seconds, ticks) pairs, both readers agree.",
     level_note="Trusted: unsigned __int128 reference arithmetic, ref/ reader. Results >= 2^63 ticks are outside the stated range (only UB-freedom is required there).",
     stages=[dict(harness="val", variant="asan", args=["--mode", "time"]),
             dict(harness="hist", variant="plain", args=["--mode", "times"], prefix="blocks_", require=["blocks_validated"])],
